@@ -26,10 +26,11 @@ BOUNDS = {
     "C03": {"quick": "DiplomatResult<Tok,Tok>/DiplomatOption<Tok>: symbolic arm, symbolic sequence of 3 operations out of "
                      "{from, into, into_option, into_converted_option, clone, as_ref, drop}; DiplomatOwnedSlice<Tok|u8|u16|u64>: "
                      "length 0..3, 4 paths; callback destructor Some/None; diplomat_alloc/free size 1..8 align 1,2,4,8; "
-                     "Rust-owned writer create/grow/destroy; unwind 10",
+                     "Rust-owned writer create/grow/destroy; layouts across the boundary: diplomat_alloc -> owned slice/str dropped by Rust and Box<[T]>/Box<str> "
+                     "released by diplomat_free for T in {u8,u16,u32,u64}, length 1..3, with std's alloc/dealloc/realloc entry points stubbed by layout-recording wrappers; unwind 10",
             "thorough": "as quick with operation sequences of length 5"},
     "C10": {"quick": "DiplomatResult<T,E> for (T,E) in {(u8,u8),(u64,u8),(u8,i64),(i32,()),((),u16),((),()),(Pair,Wide),(Wide,()),(bool,Pair)} "
-                     "and DiplomatOption<T> for T in {u8,u32,i64,bool,Pair,()}: all payload values, both arms, both directions",
+                     "and DiplomatOption<T> for T in {u8,u32,i64,bool,Pair,(), an enum without a zero discriminant, a struct holding it, NonZeroU16}: all payload values, both arms, both directions",
             "thorough": "same as quick (the value space is already covered completely)"},
     "C12": {"quick": "caller-supplied writer: initial capacity 1..6, 3 chunks of 0..3 bytes (ASCII) / 3 chunks of one symbolic "
                      "char each (1..3 bytes, every scalar value that fits), every grow outcome schedule, grow may over-allocate by 0..1; "
@@ -180,7 +181,8 @@ def run(prop):
         if needs_lock:
             shutil.copyfile(os.path.join(REPO, "Cargo.lock"), lock)
         # C03 also asks CBMC for leak freedom ("dynamically allocated memory never freed")
-        extra = ["--cbmc-args", "--memory-leak-check"] if prop == "C03" else None
+        # (-Z stubbing: c03_layout replaces std's allocation entry points by layout-recording wrappers)
+        extra = ["-Z", "stubbing", "--cbmc-args", "--memory-leak-check"] if prop == "C03" else None
         res, tools, log_, ok, wall = kani_run(crate, tag, filters=[prefix], features=feats, harness_timeout=ht, extra_args=extra)
         out["wall"] += wall
         out["tools"] = tools or out["tools"]
